@@ -63,6 +63,7 @@ def run_binding(sc):
     shim = types.SimpleNamespace(Thread=_Thread, Event=real_threading.Event, local=real_threading.local,
                                  get_ident=real_threading.get_ident, current_thread=real_threading.current_thread)
     streamz.core.threading = shim
+    real_dask_client = streamz.core._dask_default_client
     V = []
     info = {'explicit': 0, 'loopy': 0, 'flow': 0, 'raised_ok': 0, 'bg': 0}
     keep = []
@@ -75,6 +76,12 @@ def run_binding(sc):
         caller = IOLoop.current()
         other = IOLoop(make_current=False)
         loops = {'caller': caller, 'other': other, None: None}
+        if sc.get('dask_client'):
+            # the process has a (synchronous) default Dask client with a loop of its own: blocking pipelines
+            # share that loop instead of starting a thread; asynchronous ones stay on the caller's loop
+            client_loop = IOLoop(make_current=False)
+            S['client_loop'] = client_loop
+            streamz.core._dask_default_client = lambda: types.SimpleNamespace(loop=client_loop)
         chains = {}        # chain id -> dict(nodes, loop (model: None/'caller'/'other'/'bg'), mode (None/True/False), root)
         bg_loop = [None]
         seen_cb_loops = []
@@ -223,6 +230,11 @@ def run_binding(sc):
             if n_loop == 'bg' and bg_loop[0] is None and node.loop is not None and node.loop not in (caller, other):
                 bg_loop[0] = node.loop
                 info['bg'] += 1
+                if sc.get('dask_client') and node.loop is not S['client_loop']:
+                    V.append(Violation('C19', 'C19.shared_loop', len(rec.events) - 1,
+                                       '%s: a default Dask client exists, yet the blocking pipeline got a loop that is not the client\'s' % where,
+                                       node_op=kind))
+                    return
             exp_loop = {'caller': caller, 'other': other, 'bg': bg_loop[0], None: None}[n_loop]
             for nd in ch['nodes']:
                 if nd.loop is None and exp_loop is not None:
@@ -266,7 +278,7 @@ def run_binding(sc):
                                        '%s: declared asynchronous but node.asynchronous is %r (loop %s)'
                                        % (where, node.asynchronous, _lname(node.loop, loops, bg_loop)), node_op=kind))
                     return
-            want_threads = 1 if any(c['loop'] == 'bg' for c in chains.values()) else 0
+            want_threads = 1 if any(c['loop'] == 'bg' for c in chains.values()) and not sc.get('dask_client') else 0
             if _Thread.count != want_threads:
                 V.append(Violation('C19', 'C19.thread_started' if want_threads == 0 else 'C19.shared_loop', len(rec.events) - 1,
                                    '%s: %d background loop thread(s) requested in total, expected %d'
@@ -332,6 +344,7 @@ def run_binding(sc):
         from .pipeline import _reset_streamz
         _reset_streamz()
         streamz.core.threading = real_threading
+        streamz.core._dask_default_client = real_dask_client
         import glob as _g
         streamz.sources.glob = _g.glob
     return rec, V, info, status
@@ -373,6 +386,8 @@ def evaluate(prop, sc, want_trace=False):
         out.probes['pipelines_joined'] = 1
     if sc.get('outside'):
         out.probes['constructed_outside_a_running_loop'] = 1
+    if sc.get('dask_client'):
+        out.probes['default_dask_client_present'] = 1
     out.nontrivial = bool(info['explicit'] or info['loopy'])
     if want_trace:
         import types
@@ -447,7 +462,7 @@ def generate(prop, rng, seed, index, tier):
             if st['chain'] == j['chain'] and 'parent' in st:
                 st['parent'] = min(st['parent'], len(ka) - 1)
     return {'format': 1, 'family': 'binding', 'property': 'C19', 'seed': seed, 'index': index, 'steps': order,
-            'outside': rng.random() < 0.3}
+            'outside': rng.random() < 0.3, 'dask_client': rng.random() < 0.2}
 
 
 def shrink_candidates(sc):
